@@ -32,6 +32,10 @@ Streams
              prefix of the statement sequence.
   names    : the identifiers requested from the process-wide NameSelector while Project()
              runs (logged by a wrapper) == the model's `projectNames`.
+  patterns : harness/c20rx.py - every regular expression applied while a file is read and parsed
+             (table `Gen.patterns`): `match` of the real pattern == the model's matcher on sampled
+             subjects; every loop of every pattern pumped under a timer; a pattern that does not
+             come back is put into a source file of a project (oracle O2).
   e2e      : a few complete runs (ford.main): the generated site with a rejected bad file is
              byte-identical to the site without it.
 """
@@ -57,7 +61,7 @@ PROP = "C20"
 SPELL = {
     "contains": ["contains", "CONTAINS", "Contains"],
     "perm": ["private", "public", "PRIVATE", "protected"],
-    "attrib": ["save :: {n}", "save {n}", "target :: {n}", "external {n}"],
+    "attrib": ["save :: {n}", "save {n}", "target :: {n}", "external {n}", "save :: {n}, another_long_variable_name"],
     "attribParen": ["dimension {n}(3)"],
     "dataStmt": ["data {n} /1/"],
     "endUnit": ["end", "END", "end module", "end module {n}", "end program", "endfunction", "end type",
@@ -84,12 +88,22 @@ SPELL = {
     "absInterface": ["abstract interface"],
     "absGeneric": ["abstract interface {n}"],
     "enum": ["enum, bind(c)", "enum, bind(C)"],
-    "variable": ["integer :: {n}", "real {n}", "integer, parameter :: {n} = 1", "logical {n}", "enumerator :: {n}"],
+    "variable": ["integer :: {n}", "real {n}", "integer, parameter :: {n} = 1", "logical {n}", "enumerator :: {n}",
+                 "real :: {n}, maximum_iteration_count, convergence_tolerance_value"],
     "variableParen": ["character(len=3) :: {n}"],
-    "use": ["use {n}", "use {n}, only: a", "use :: {n}"],
-    "callParen": ["call {n}(1)", "{n} = f(1)", "call {n}()"],
+    "use": ["use {n}", "use {n}, only: a", "use :: {n}",
+            "use {n}, only: first_long_entity_name, second_long_entity_name => renamed_entity_name"],
+    "callParen": ["call {n}(1)", "{n} = f(1)", "call {n}()", "call {n}(maximum_iteration_count, convergence_tolerance_value)"],
     "callBare": ["call {n}"],
-    "other": ["{n} = 1", "stop", "return", "@@@ ###", "if then else", "foo bar baz", "lorem ipsum dolor sit amet", "<html> </html>", "{ }"],
+    # list-like statements, also with the long descriptive names and the several groups per statement of real code
+    "namelist": ["namelist /{n}/ a, b", "NAMELIST /{n}/ a",
+                 "namelist /{n}/ maximum_iteration_count, convergence_tolerance_value, output_file_name",
+                 "namelist /{n}/ maximum_iteration_count, convergence_tolerance_value /{n}_out/ output_file_name"],
+    "common": ["common /{n}/ a, b", "COMMON /{n}/ first_long_variable_name, second_long_variable_name",
+               "common /{n}/ a, b /{n}_2/ c", "common a, b"],
+    "format": ["10 format (i3)", "100 format (a, i5, f10.3)", "20 FORMAT (1x, a)"],
+    "arithGoto": ["go to (10, 20) {n}", "goto (10, 20, 30) {n}"],
+    "other": ["{n} = 1", "stop", "return", "{n} % first_component % second_component % third_component = 1", "@@@ ###", "if then else", "foo bar baz", "lorem ipsum dolor sit amet", "<html> </html>", "{ }"],
 }
 JUNK = {"@@@ ###", "if then else", "foo bar baz", "lorem ipsum dolor sit amet", "<html> </html>", "{ }"}
 END_KW = {  # keyword an END spelling carries (None = bare END)
@@ -118,12 +132,17 @@ REP_OF_MSG = [
     ("Unexpected variable", "unexpectedVariable"),
     ("Unexpected USE statement", "unexpectedUse"),
     ("Unexpected procedure call", "unexpectedCall"),
+    ("Unexpected NAMELIST", "unexpectedNamelist"),
+    ("Unexpected COMMON statement", "unexpectedCommon"),
 ]
 ATTR_MSG = re.compile(r"Unexpected [A-Z(), ]+ statement")
 
 
 class Hang(BaseException):
     pass
+
+
+MAX_PROJECT_HANGS = 6      # bounds the time of a failing run
 
 
 def mk(kind, name="", rng=None, spelling=None):
@@ -157,7 +176,8 @@ class Gen:
 
     def decl(self):
         r = self.rng
-        k = r.choice(["variable", "variable", "variableParen", "use", "perm", "attrib", "attribParen", "dataStmt"])
+        k = r.choice(["variable", "variable", "variableParen", "use", "perm", "attrib", "attribParen", "dataStmt",
+                      "variable", "use", "namelist", "common"])
         sp = None
         if k == "variable":
             sp = r.choice([s for s in SPELL["variable"] if not s.startswith("enumerator")])
@@ -204,8 +224,11 @@ class Gen:
                 out.append(mk("callParen", self.name("p"), r))
             elif x < 0.4:
                 out.append(mk("callBare", self.name("p"), r))
+            elif x < 0.52:
+                out.append(mk("other", self.name("x"), spelling=r.choice(
+                    ["{n} = 1", "stop", "return", "{n} % first_component % second_component % third_component = 1"])))
             elif x < 0.6:
-                out.append(mk("other", self.name("x"), spelling=r.choice(["{n} = 1", "stop", "return"])))
+                out.append(mk(r.choice(["format", "arithGoto"]), self.name("x"), r))
             elif x < 0.8 and depth < 2:
                 out.append(mk("block", "", r))
                 if r.random() < 0.5:
@@ -294,7 +317,7 @@ class Gen:
         n = self.name("bd")
         out = [mk("blockdata", n, r)]
         for _ in range(r.randint(0, 2)):
-            out.append(mk(r.choice(["variable", "dataStmt", "attrib"]), self.name("v"), r))
+            out.append(mk(r.choice(["variable", "dataStmt", "attrib", "common"]), self.name("v"), r))
         out.append(mk("endUnit", n, spelling=r.choice(["end block data", "end"])))
         return out
 
@@ -339,7 +362,7 @@ def validate(stmts) -> str | None:
         pos += 1
         return s
 
-    DECL = {"perm", "attrib", "attribParen", "dataStmt", "variable", "variableParen", "use"}
+    DECL = {"perm", "attrib", "attribParen", "dataStmt", "variable", "variableParen", "use", "namelist", "common"}
 
     def is_junk(s):
         return s["kind"] == "other" and s["sp"] in JUNK
@@ -402,7 +425,8 @@ def validate(stmts) -> str | None:
                         end_of("enum", t)
                         break
                     raise Invalid(f"{t['kind']} inside an enum")
-            elif executable and k in ("callParen", "callBare") or (executable and k == "other" and not is_junk(s)):
+            elif executable and k in ("callParen", "callBare", "format", "arithGoto") or (
+                    executable and k == "other" and not is_junk(s)):
                 take()
             elif executable and k == "block":
                 take()
@@ -478,7 +502,8 @@ def validate(stmts) -> str | None:
                 proc(1)
             elif k == "blockdata":
                 take()
-                while peek() is not None and peek()["kind"] in ("variable", "variableParen", "dataStmt", "attrib", "attribParen", "use"):
+                while peek() is not None and peek()["kind"] in ("variable", "variableParen", "dataStmt", "attrib", "attribParen",
+                                                                "use", "common"):
                     take()
                 t = take()
                 if t["kind"] != "endUnit":
@@ -497,7 +522,8 @@ def validate(stmts) -> str | None:
 STRAY = ["contains", "endUnit", "endBlock", "endAssociate", "program", "module", "submodule", "subroutine",
          "function", "type", "interface", "absGeneric", "enum", "blockdata", "block", "associate", "modproc",
          "variable", "use", "callBare", "callParen", "other", "dataStmt", "attrib", "perm", "typedFunction",
-         "endUnitSub", "endUnitFun", "interfaceAnon", "absInterface", "subroutineBare", "variableParen", "attribParen"]
+         "endUnitSub", "endUnitFun", "interfaceAnon", "absInterface", "subroutineBare", "variableParen", "attribParen",
+         "namelist", "common", "format", "arithGoto"]
 
 
 def corruptions(rng, base, other, prefix, budget):
@@ -964,6 +990,14 @@ def real_row(sf, line, branches):
         "enum": C.ENUM_RE, "boundproc": C.BOUNDPROC_RE, "common": C.COMMON_RE, "final": C.FINAL_RE,
         "variable": var_re, "use": C.USE_RE,
     }
+    from .c20rx import timed
+
+    def t(fn):      # a recogniser that does not come back within 1 s on a statement of a few dozen characters
+        st, res = timed(fn, line, 1.0)
+        if st == "hang":
+            raise Hang()
+        return bool(res)
+
     ll = line.lower()
     out = []
     for br in branches:
@@ -974,11 +1008,11 @@ def real_row(sf, line, branches):
         elif br == "sequence":
             m = ll == "sequence"
         elif br == "arithgoto":
-            m = bool(C.ARITH_GOTO_RE.search(line))
+            m = t(C.ARITH_GOTO_RE.search)
         elif br == "call":
-            m = bool(C.CALL_RE.search(line) or C.SUBCALL_RE.search(line))
+            m = t(C.CALL_RE.search) or t(C.SUBCALL_RE.search)
         else:
-            m = bool(rx[br].match(line))
+            m = t(rx[br].match)
         if m:
             out.append(br)
     return out
@@ -991,13 +1025,21 @@ def row_stream(ford, drv, rep):
     kinds = list(SPELL)
     rows = drv.batch([["c20.row", k] for k in kinds])
     n = bad = 0
+    hung_lines = set()
     for k, r in zip(kinds, rows):
         want = r[1:] if r[0] == "ok" else ["?"]
         want = [x for x in want if x]
         for sp in SPELL[k]:
             for nm in ("nm1", "Abc_2"):
                 line = sp.replace("{n}", nm)
-                got = real_row(sf, line, branches)
+                try:
+                    got = real_row(sf, line, branches)
+                except Hang:
+                    bad += 1
+                    hung_lines.add(line)
+                    rep.tie_broken(f"correspondence rows: a recogniser of the cascade does not come back within 1 s on the statement {line!r} (kind {k})",
+                                   {"stream": "rows", "line": line, "kind": k})
+                    continue
                 n += 1
                 if got != [x for x in branches if x in want]:
                     bad += 1
@@ -1008,6 +1050,8 @@ def row_stream(ford, drv, rep):
     for k in kinds:
         for sp in SPELL[k]:
             line = sp.replace("{n}", "nm1")
+            if line in hung_lines:
+                continue
             if "call" in real_row(sf, line, ["call"]):
                 paren = bool(C.CALL_RE.search(line))
                 if paren == (k == "callBare"):
@@ -1032,6 +1076,7 @@ def src_text(src, rng):
 
 def run(tier: str, seed: int, replay: str | None = None) -> int:
     from translate import c20 as tr
+    from . import c20rx
 
     rep = Report(PROP, tier, seed)
     lean = lean_prove(PROP, translate=tr.translate, thorough=(tier == "thorough"))
@@ -1217,12 +1262,29 @@ def run(tier: str, seed: int, replay: str | None = None) -> int:
                                          "reps": [], "paths": []}
         # ------------------------------------------------------------ baselines (good files only)
         baselines = {}
+        bad_baselines = set()
         for c in cases:
             key = (c["gi"], c["dbg"], c["force"])
+            if key not in baselines and real.hangs >= MAX_PROJECT_HANGS:
+                baselines[key] = ({}, {"hang": True, "escaped": None})     # not run any more: the run has failed
+                bad_baselines.add(key)
             if key not in baselines:
                 lrng = random.Random(c["gi"])
                 texts = {name: src_text(src, lrng) for name, src in c["goods"]}
-                baselines[key] = (texts, real.run([(n_, texts[n_]) for n_, _ in c["goods"]], c["dbg"], c["force"]))
+                bobs = real.run([(n_, texts[n_]) for n_, _ in c["goods"]], c["dbg"], c["force"])
+                baselines[key] = (texts, bobs)
+                if bobs["hang"] or (c["dbg"] and bobs["escaped"] is not None):
+                    # the *valid* files alone: O2 fails without any additional file
+                    bad_baselines.add(key)
+                    if any(k_[0] == c["gi"] for k_ in bad_baselines if k_ != key):
+                        continue            # the same files, already reported under other settings
+                    rep.failing_input({"stream": "projects", "how": "valid files only", "dbg": c["dbg"], "force": c["force"],
+                                       "files": [{"name": n_, "text": texts[n_]} for n_, _ in c["goods"]],
+                                       "why": ["O2: Project(settings) did not return before the watchdog expired on the valid files alone"
+                                               if bobs["hang"] else f"O2: the run on the valid files alone aborted: {bobs['escaped']!r}"]},
+                                      c20rx.classify_hang(real.sf, [l for t_ in texts.values() for l in t_.splitlines()])
+                                      if bobs["hang"] else None)
+        cases = [c for c in cases if (c["gi"], c["dbg"], c["force"]) not in bad_baselines]
         # ------------------------------------------------------------ run the real code
         for ci, c in enumerate(cases):
             texts, base_obs = baselines[(c["gi"], c["dbg"], c["force"])]
@@ -1231,6 +1293,13 @@ def run(tier: str, seed: int, replay: str | None = None) -> int:
             obs = real.run(files, c["dbg"], c["force"])
             c["real_skipped"] = (not obs["hang"] and obs["escaped"] is None and "bad.f90" not in obs.get("files", ["bad.f90"]))
             c["obs"], c["run_files"] = obs, files
+            if real.hangs >= MAX_PROJECT_HANGS:
+                # every further hang costs the watchdog time; the run has its failing inputs and is not a pass
+                rep.tie_broken(f"projects: Project() did not return on {real.hangs} cases; the remaining "
+                               f"{len(cases) - ci - 1} of {len(cases)} cases were not run")
+                break
+        n_cases_not_run = len([c for c in cases if "obs" not in c])
+        cases = [c for c in cases if "obs" in c]
         # ------------------------------------------------------------ project model, fed with the order
         # in which the implementation really read the files (files it never reached keep their place)
         preqs = []
@@ -1398,6 +1467,10 @@ def run(tier: str, seed: int, replay: str | None = None) -> int:
             if len(samples) < 3 and mo["status"] == "skipped" and bad["form"] == "stmts" and len(bad["stmts"]) > 3:
                 samples.append({"how": bad["how"], "bad_file": text_of(bad["stmts"]).splitlines(), "position": c["pos"],
                                 "outcome": obs["excs"].get("bad.f90"), "warns": obs["warns"]})
+        # ------------------------------------------------------------ the regular expressions
+        corpus = sorted({s_["text"] for c in cases[:400] for _, src in c["files"] if src["form"] == "stmts"
+                         for s_ in src["stmts"]})
+        rx_cov = c20rx.run_stream(rep, drv, real, random.Random(seed * 7919 + 5), quick, corpus)
         # ------------------------------------------------------------ e2e: full runs
         n_e2e_done, e2e_fail = e2e_stream(rep, rng, cases, baselines, n_e2e, seed)
     drv.close()
@@ -1419,11 +1492,15 @@ def run(tier: str, seed: int, replay: str | None = None) -> int:
         laid_out_files_read_by_reader_and_model=n_reader,
         laid_out_files_by_state_at_end_of_file=dict(sorted(cut_hist.items())),
         reader_hangs=reader_hangs,
+        project_hangs=real.hangs,
+        valid_file_sets_on_which_the_run_does_not_complete=len(bad_baselines),
+        cases_not_run_after_repeated_hangs=n_cases_not_run,
         stale_copy_cases=n_stale,
         stale_copy_cases_read_before_the_original=n_stale_before,
         identifier_comparisons=n_ident_checks,
         name_table_comparisons=n_names_checks,
         e2e_runs=n_e2e_done,
+        patterns_stream=rx_cov,
         variant=("repaired (a file with print_error reports is rejected when its constructor returns)" if repaired
                  else "asIs (print_error under dbg returns; reported files stay registered)"),
     )
@@ -1431,7 +1508,8 @@ def run(tier: str, seed: int, replay: str | None = None) -> int:
         "statements are rendered one per line from 33 statement kinds; the recognisers themselves (CPython re) are on the implementation side, matchRow is validated on the rows stream",
         "the reader is not re-modelled here: reader errors and decoding errors are inputs of kind R / U (FortranReader is modelled in FordModel/Reader.lean, property C02); on the laid-out files that model is compared with the real reader, item by item",
         "identifiers are compared as handed out when asked for in project order right after Project() returned (and in the complete runs of the e2e stream as they end up in the site)",
-        "catastrophic regex backtracking is searched for only through the per-case watchdog",
+        "regular expressions: the model's alphabet is ASCII, look-behind assertions are taken as true, greedy / lazy order is not modelled (it does not change the number of ways); exponential blow-up of a loop is excluded by the table theorem for the `functional` class and searched for by pumping every loop; polynomial slowness is not looked for",
+        "a direct call of a pattern is given 0.4 s (confirmed with 2 s) on a subject of 48 copies of a sampled loop iteration; Project() is given 10 s (4 s for a pumped statement)",
     ]
     return rep.finish(lean)
 
